@@ -29,7 +29,7 @@ if [ "${SEED_SKIP_TESTS:-0}" != 1 ]; then
   mv /root/scratch/seedhold-$ID/* . 2>/dev/null; rmdir /root/scratch/seedhold-$ID 2>/dev/null
 fi
 echo "--- check $PROP $TIER against the changed tree" >>"$LOG"
-( cd /verif && VERIF_REPO="$S" timeout 3000 ./run.sh "$PROP" "$TIER" ) > "$SD/check.out" 2>&1; c=$?
+( cd /verif && VERIF_BUDGET_S=${VERIF_BUDGET_S:-900} VERIF_REPO="$S" timeout 3000 ./run.sh "$PROP" "$TIER" ) > "$SD/check.out" 2>&1; c=$?
 grep -E "^(VIOLATION|KNOWN|C[0-9]+ |HARNESS|  signature)" "$SD/check.out" | head -12 >>"$LOG"
 git apply -R "$SD/patch.diff" >>"$LOG" 2>&1
 echo "--- demo without change" >>"$LOG"
